@@ -355,6 +355,20 @@ def run(res, tier, seed, search=False, have_drv=True):
                                               "model.obs": "\n".join(model[i]) + "\n"}, tag="diff")
                 res.broken.append("correspondence: real channel and ChanProto disagree on `%s`: impl `%s` vs model `%s` (replay %s)"
                                   % (" | ".join(c[1:-1]), first[0], first[1], os.path.join(d, "case.sched")))
+    # single-threaded, more queued than one drain may take (the budget is capped at 1024 whatever the bound)
+    import coresuite
+    big = [l.rstrip("\n") for l in open(os.path.join(C.ROOT, "corpus", "core", "c04_bounded_over_budget.ops")) if l.strip() and not l.startswith("#")]
+    bimpl, bmodel, _ = coresuite.run_cases([big], want_model=have_drv, workers=1)
+    got = [int(l.split()[3]) for l in bimpl[0] if l.startswith("cb 1 msg ")]
+    res.cov["over_budget_case"] = "sync_channel(1100), 1030 queued, 3 dispatches: delivered %d" % len(got)
+    if got != list(range(1, 1031)):
+        d = C.write_replay(res.pid, {"case.ops": "\n".join(big) + "\n", "verdict.txt": "delivered %d of 1030 messages in order: %s…\n" % (len(got), got[:5])})
+        res.violations.append(("C04 on the real channel: sync_channel(1100) with 1030 messages queued before the first dispatch: after three "
+                               "dispatches %d were delivered (the drain budget is 1024; the rest needs the channel to wake itself)" % len(got),
+                               os.path.join(d, "case.ops")))
+        res.cov["impl_monitor_failures"] += 1
+    elif bmodel is not None and [l for l in bimpl[0] if l.startswith("cb ")] != [l for l in bmodel[0] if l.startswith("cb ")]:
+        res.broken.append("correspondence: the over-budget case delivers differently in model and implementation")
     races = run_races(4 if tier == "quick" else 40)
     res.cov["uncontrolled_race_runs"] = len(races)
     for c, l, v in races:
@@ -383,6 +397,9 @@ def run(res, tier, seed, search=False, have_drv=True):
 
 def replay(path):
     case = [l.rstrip("\n") for l in open(path) if l.strip()]
+    if any(l.startswith("new ") for l in case):
+        import coreprop
+        return coreprop.replay(path, "C02")
     if any(l.startswith("race ") for l in case):
         rc, out, err = C.run_vh("chansched", "\n".join(case) + "\n", timeout=600)
         bad = 0
